@@ -421,7 +421,7 @@ FASTOR_INLINE __m256d _mm256_shift2_pd(__m256d a) {
 FASTOR_INLINE __m256d _mm256_shift3_pd(__m256d a) {
     // IVY - 2OPS / HW - 4OPS
     __m256d r1 = _mm256_castpd128_pd256(_mm_shift1_pd(_mm256_castpd256_pd128(a)));
-    return _mm256_permute2f128_pd(r1,r1,0x1);
+    return _mm256_permute2f128_pd(r1,r1,0x08);
 }
 #endif
 //----------------------------------------------------------------------------------------------------------------//
